@@ -645,8 +645,9 @@ class Run:
         return logs
 
     def botp_compare(self, name, fam, cases, logs):
-        """every predicted output of every call against the log; one key per (family, call class, field)"""
-        groups, steps = {}, 0
+        """every predicted output of every call against the log; disagreements are grouped by (family, call class, field)
+        over all runs and reported once per group (botp_report).  Returns (calls compared, histories disagreeing)."""
+        steps = nbad = 0
         for c in cases:
             got = logs.get(c["id"])
             if got is None:
@@ -657,20 +658,23 @@ class Run:
             if d:
                 i, e, field = d
                 h = c["hist"][i - 1] if i <= len(c["hist"]) else {"e": e}
-                groups.setdefault("botpSM:%s:%s:%s" % (fam, botp_class(h), field), []).append((i, len(c["id"]), c["id"], c, got))
-        for key, g in groups.items():
+                self.botp_groups.setdefault("botpSM:%s:%s:%s" % (fam, botp_class(h), field), []).append((i, len(c["id"]), c["id"], c, got, name))
+                nbad += 1
+        return steps, nbad
+
+    def botp_report(self):
+        for key, g in sorted(self.botp_groups.items()):
             g.sort(key=lambda t: t[:3])
-            i, _, cid, c, got = g[0]                    # the history that fails earliest (shortest prefix) is the replay datum
-            pref = cid.split(".")[:i]
+            i, _, cid, c, got, name = g[0]              # the history that fails earliest (shortest prefix) is the replay datum
+            field = key.rsplit(":", 1)[1]
+            pred = c["hist"][i - 1] if i <= len(c["hist"]) else {}
             self.ctx.violation(key, "botp state object differs from botp.h's documented semantics at call %d (%s) of history %s: field '%s' predicted %s, "
-                               "real object %s (%d histories of run %s fail in this class; shortest failing prefix %s)"
-                               % (i, c["hist"][i - 1]["e"] if i <= len(c["hist"]) else "?", cid, key.rsplit(":", 1)[1],
-                                  c["hist"][i - 1].get(key.rsplit(":", 1)[1]) if i <= len(c["hist"]) else None,
-                                  (got[i - 1].get(key.rsplit(":", 1)[1]) if got and i <= len(got) else None), len(g), name, ".".join(pref)),
+                               "real object %s (%d histories fail in this class, runs %s; shortest failing prefix %s)"
+                               % (i, pred.get("e", "?"), cid, field, pred.get(field), (got[i - 1].get(field) if got and i <= len(got) else None),
+                                  len(g), sorted(set(t[5] for t in g)), ".".join(cid.split(".")[:i])),
                                json.dumps({"history": cid, "failing_call": i, "predicted": c["hist"], "logged": got,
                                            "other_histories": [t[2] for t in g[1:30]], "script": botp_script(c),
                                            "how": "build/bin/drv_botp-rel-* run < script; predicted by spec/mc/MC_BotpSM.tla over spec/sm/BotpSM.tla"}))
-        return steps, sum(len(g) for g in groups.values())
 
     def botp_trace(self, rows, what, shards):
         """record direction: logged histories stepped through BotpSM's actions (Trace_Botp), sharded at Reset lines.
@@ -707,10 +711,13 @@ class Run:
                     j -= 1
                 fam = next((x["e"][:4].lower() for x in part[j + 1:at] if x["e"].endswith("Start")), "botp")
                 cls = row["e"] + ((":accept" if row.get("ok") else ":reject") if row["e"].endswith("StepV") else "")
-                ctx.violation("botpSM:%s:%s:trace" % (fam, cls),
-                              "recorded history %s of a botp state object is not a behaviour of sm/BotpSM: rejected at call %d (%s) after %s"
+                key = "botpSM:%s:%s:trace" % (fam, cls)
+                if key in self.botp_trace_keys:
+                    continue
+                self.botp_trace_keys.add(key)
+                ctx.violation(key, "recorded history %s of a botp state object is not a behaviour of sm/BotpSM: rejected at call %d (%s) after %s"
                               % (part[j].get("id"), at - j - 1, row["e"], [x["e"] for x in part[j + 1:at - 1]][-8:]),
-                              {"history": [brief(x) for x in part[j:at]], "how": "TRACE=<these lines as ndjson> tlc spec/trace/Trace_Botp.tla -workers 1"})
+                              json.dumps({"history": part[j:at], "how": "TRACE=<these lines as ndjson> tlc spec/trace/Trace_Botp.tla -workers 1"}))
             elif vlib.tlc_infra_failed(r):
                 ctx.note_inconclusive("trace validation of %s gave no verdict (rc=%s) %s" % (os.path.basename(sp), r.rc, (r.error or "")[-300:]))
             else:
@@ -724,6 +731,8 @@ class Run:
         ctx = self.ctx
         t0 = time.time()
         plan = self.botp_plan()
+        self.botp_groups = {}
+        self.botp_trace_keys = set()
         b = vlib.harness("drv_botp", ["drv_botp.c"], "rel")
         # record direction input: seeded random histories of the driver
         nrand, lrand = (18, 10) if ctx.quick else (120, 24)
@@ -779,6 +788,7 @@ class Run:
             if cases:
                 c = cases[len(cases) // 2]
                 self.ev.sample({"botp_history": c["id"], "calls": [brief(h) for h in c["hist"]]}, cap=14)
+        self.botp_report()
         sh, sl = self.botp_trace(sample_rows, "sample", 6 if ctx.quick else 14) if sample_rows else (0, 0)
         self.replayed += tot_h
         self.lines_validated += nl + sl
